@@ -399,4 +399,223 @@ theorem nets_any_order (items : List NetItem) (hwf : NetsWF items) :
     rw [busOf_foldl items [] it.name hbus, busOf_nil]
     exact multibit_merge (bitsOf it.name items) (bitsOf_ne_nil it.name items it hit rfl i hi) hnd
 
+/-- a scalar net whose name no cable carries yet becomes the cable of that name -/
+theorem busOf_netStep_scalar (cs : List CCable) (it : NetItem) (hidx : it.idx = none)
+    (hnone : findName (cs.map (·.data)) it.name = none) :
+    busOf it.name (netStep cs it) = some ⟨0, [it.pins]⟩ := by
+  unfold netStep
+  simp only [hidx]
+  rw [busOf_append_new cs _ it.name (by rw [nameOf_scalarCable, nameOf_withName]) hnone]
+  rfl
+
+theorem findName_none_of_fromItems (done : List NetItem) (cs : List CCable) (name : Str)
+    (hfrom : FromItems done cs) (h : ∀ x ∈ done, x.name ≠ name) : findName (cs.map (·.data)) name = none := by
+  unfold findName
+  rw [List.findIdx?_eq_none_iff]
+  intro s hs
+  obtain ⟨c, hc, rfl⟩ := List.mem_map.mp hs
+  obtain ⟨x, hx, h1, _, _⟩ := hfrom c hc
+  rw [h1]
+  simp only [beq_eq_false_iff_ne, ne_eq]
+  exact h x hx
+
+theorem fromItems_foldl (items done : List NetItem) (cs : List CCable) (h : FromItems done cs) :
+    FromItems (done ++ items) (items.foldl netStep cs) := by
+  induction items generalizing done cs with
+  | nil => simpa using h
+  | cons it r ih =>
+    have := ih (done ++ [it]) (netStep cs it) (FromItems_netStep done cs it h)
+    simpa using this
+
+/-- **scalar nets survive**: in a well-formed net list every scalar net ends as the one-wire cable of
+    its name carrying exactly its pins, wherever it stands among the bit nets -/
+theorem scalar_survives (items : List NetItem) (hwf : NetsWF items) (it : NetItem) (hit : it ∈ items)
+    (hidx : it.idx = none) : busOf it.name (items.foldl netStep []) = some ⟨0, [it.pins]⟩ := by
+  obtain ⟨done, rest, hsplit⟩ := List.append_of_mem hit
+  -- no other item carries this name
+  have hnd := hwf.scalar_once
+  have hother : ∀ x, x ∈ done ∨ x ∈ rest → x.name ≠ it.name := by
+    intro x hx hxn
+    have hxmem : x ∈ items := by rw [hsplit]; rcases hx with h | h <;> simp [h]
+    have hsame := (hwf.same x hxmem it hit hxn).2
+    rw [hidx] at hsame
+    have hxs : x.idx.isNone = true := by
+      cases hxi : x.idx with
+      | none => rfl
+      | some _ => simp [hxi] at hsame
+    rw [hsplit, List.filter_append, List.map_append] at hnd
+    have hnd2 := List.nodup_append.mp hnd
+    have hitf : it.name ∈ ((it :: rest).filter (fun y => y.idx.isNone)).map (·.name) :=
+      List.mem_map_of_mem (List.mem_filter.mpr ⟨by simp, by simp [hidx]⟩)
+    rcases hx with h | h
+    · have hx1 : x.name ∈ (done.filter (fun y => y.idx.isNone)).map (·.name) :=
+        List.mem_map_of_mem (List.mem_filter.mpr ⟨h, hxs⟩)
+      exact hnd2.2.2 _ hx1 _ hitf hxn
+    · have hfil : (it :: rest).filter (fun y => y.idx.isNone) = it :: rest.filter (fun y => y.idx.isNone) := by
+        simp [List.filter_cons, hidx]
+      rw [hfil, List.map_cons] at hnd2
+      have := (List.nodup_cons.mp hnd2.2.1).1
+      apply this
+      rw [← hxn]
+      exact List.mem_map_of_mem (List.mem_filter.mpr ⟨h, hxs⟩)
+  rw [hsplit, List.foldl_append, List.foldl_cons]
+  have hfrom : FromItems done (done.foldl netStep []) := by
+    have := fromItems_foldl done [] [] (by intro c hc; cases hc)
+    simpa using this
+  have hnone := findName_none_of_fromItems done _ it.name hfrom (fun x hx => hother x (Or.inl hx))
+  have hstep := busOf_netStep_scalar (done.foldl netStep []) it hidx hnone
+  -- the rest leaves it alone
+  have hrest : ∀ (r : List NetItem) (cs : List CCable), (∀ x ∈ r, x.name ≠ it.name) →
+      busOf it.name (r.foldl netStep cs) = busOf it.name cs := by
+    intro r
+    induction r with
+    | nil => intro cs _; rfl
+    | cons y r ih =>
+      intro cs h
+      rw [List.foldl_cons, ih _ (fun x hx => h x (by simp [hx])), busOf_netStep_other cs y it.name (h y (by simp))]
+  rw [hrest rest _ (fun x hx => hother x (Or.inr hx)), hstep]
+
+
+/-! ### exactly one cable per declared name -/
+
+def cableNames (cs : List CCable) : List (Option Str) := cs.map fun c => nameOf c.data
+
+theorem findName_none_iff (cs : List CCable) (n : Str) :
+    findName (cs.map (·.data)) n = none ↔ some n ∉ cableNames cs := by
+  unfold findName cableNames
+  rw [List.findIdx?_eq_none_iff]
+  constructor
+  · intro h hm
+    obtain ⟨c, hc, hn⟩ := List.mem_map.mp hm
+    have := h c.data (List.mem_map_of_mem hc)
+    simp [hn] at this
+  · intro h s hs
+    obtain ⟨c, hc, rfl⟩ := List.mem_map.mp hs
+    cases hn : nameOf c.data with
+    | none => rfl
+    | some a =>
+      simp only [beq_eq_false_iff_ne, ne_eq]
+      intro e
+      exact h (List.mem_map.mpr ⟨c, hc, by rw [hn, e]⟩)
+
+theorem cableNames_set (cs : List CCable) (k : Nat) (c' ex : CCable) (hk : cs[k]? = some ex) (hd : c'.data = ex.data) :
+    cableNames (cs.set k c') = cableNames cs := by
+  unfold cableNames
+  apply List.ext_getElem?
+  intro j
+  simp only [List.getElem?_map, List.getElem?_set]
+  by_cases hj : k = j
+  · subst hj
+    have hlt : k < cs.length := by
+      rcases Nat.lt_or_ge k cs.length with h | h
+      · exact h
+      · rw [List.getElem?_eq_none h] at hk; cases hk
+    have hex : cs[k] = ex := by
+      have := List.getElem?_eq_getElem hlt
+      rw [this] at hk; exact Option.some.inj hk
+    simp [hlt, hd, hex]
+  · simp [hj]
+
+/-- names of the cables = names the nets read so far declare, each once -/
+structure NamesInv (done : List NetItem) (cs : List CCable) : Prop where
+  nodup : (cableNames cs).Nodup
+  complete : ∀ x ∈ done, some x.name ∈ cableNames cs
+  sound : ∀ o ∈ cableNames cs, ∃ x ∈ done, o = some x.name
+
+theorem namesInv_step (items done : List NetItem) (it : NetItem) (rest : List NetItem) (cs : List CCable)
+    (hwf : NetsWF items) (hsplit : items = done ++ it :: rest) (hinv : NamesInv done cs) :
+    NamesInv (done ++ [it]) (netStep cs it) := by
+  have hit : it ∈ items := by rw [hsplit]; simp
+  have happend : ∀ c : CCable, nameOf c.data = some it.name → some it.name ∉ cableNames cs →
+      NamesInv (done ++ [it]) (cs ++ [c]) := by
+    intro c hc hnot
+    refine ⟨?_, ?_, ?_⟩
+    · simp only [cableNames, List.map_append, List.map_cons, List.map_nil, hc]
+      rw [List.nodup_append]
+      refine ⟨hinv.nodup, by simp, ?_⟩
+      intro a ha b hb
+      simp only [List.mem_singleton] at hb
+      subst hb
+      intro e; subst e; exact hnot ha
+    · intro x hx
+      simp only [cableNames, List.map_append, List.map_cons, List.map_nil, hc, List.mem_append, List.mem_singleton]
+      rcases List.mem_append.mp hx with h | h
+      · left; exact hinv.complete x h
+      · simp only [List.mem_singleton] at h; subst h; right; rfl
+    · intro o ho
+      simp only [cableNames, List.map_append, List.map_cons, List.map_nil, hc, List.mem_append, List.mem_singleton] at ho
+      rcases ho with h | h
+      · obtain ⟨x, hx, e⟩ := hinv.sound o h
+        exact ⟨x, by simp [hx], e⟩
+      · exact ⟨it, by simp, h⟩
+  unfold netStep
+  cases hi : it.idx with
+  | none =>
+    simp only
+    apply happend _ (by rw [nameOf_scalarCable, nameOf_withName])
+    intro hm
+    obtain ⟨x, hx, e⟩ := hinv.sound _ hm
+    have hxn : x.name = it.name := (Option.some.inj e).symm
+    have hxmem : x ∈ items := by rw [hsplit]; simp [hx]
+    have hsame := (hwf.same x hxmem it hit hxn).2
+    rw [hi] at hsame
+    have hxs : x.idx.isNone = true := by
+      cases hxi : x.idx with
+      | none => rfl
+      | some _ => simp [hxi] at hsame
+    have hnd := hwf.scalar_once
+    rw [hsplit, List.filter_append, List.map_append] at hnd
+    have hdisj := (List.nodup_append.mp hnd).2.2
+    exact hdisj _ (List.mem_map_of_mem (List.mem_filter.mpr ⟨hx, hxs⟩)) _
+      (List.mem_map_of_mem (List.mem_filter.mpr ⟨by simp, by simp [hi]⟩)) hxn
+  | some i =>
+    simp only
+    cases hf : findName (cs.map (·.data)) it.name with
+    | none =>
+      simp only
+      exact happend _ (nameOf_busCable _ _ _ _) ((findName_none_iff cs it.name).mp hf)
+    | some k =>
+      have hlt := findName_lt _ _ _ hf
+      simp only [List.length_map] at hlt
+      have hk : cs[k]? = some cs[k] := List.getElem?_eq_getElem hlt
+      simp only [hk]
+      have hnames := cableNames_set cs k (mergeInto cs[k] i it.pins) cs[k] hk (mergeInto_eq cs[k] i it.pins).2.2.1
+      obtain ⟨_, hnk⟩ := findName_sound _ _ _ hf
+      simp only [List.getElem_map] at hnk
+      have hpresent : some it.name ∈ cableNames cs := by
+        unfold cableNames
+        exact List.mem_map.mpr ⟨cs[k], List.getElem_mem hlt, hnk⟩
+      refine ⟨by rw [hnames]; exact hinv.nodup, ?_, ?_⟩
+      · intro x hx
+        rw [hnames]
+        rcases List.mem_append.mp hx with h | h
+        · exact hinv.complete x h
+        · simp only [List.mem_singleton] at h; subst h; exact hpresent
+      · intro o ho
+        rw [hnames] at ho
+        obtain ⟨x, hx, e⟩ := hinv.sound o ho
+        exact ⟨x, by simp [hx], e⟩
+
+theorem namesInv_foldl (items : List NetItem) (hwf : NetsWF items) :
+    ∀ (done rest : List NetItem) (cs : List CCable), items = done ++ rest → NamesInv done cs →
+      NamesInv (done ++ rest) (rest.foldl netStep cs) := by
+  intro done rest
+  induction rest generalizing done with
+  | nil => intro cs _ h; simpa using h
+  | cons it r ih =>
+    intro cs hsplit hinv
+    have := ih (done ++ [it]) (netStep cs it) (by simp [hsplit]) (namesInv_step items done it r cs hwf hsplit hinv)
+    simpa using this
+
+/-- **one cable per declared name**: after a well-formed net list the cables carry pairwise different
+    names and these are exactly the (cable-level) names the nets declare — nothing is lost, nothing is
+    invented, nothing is merged across names -/
+theorem one_cable_per_name (items : List NetItem) (hwf : NetsWF items) :
+    (cableNames (items.foldl netStep [])).Nodup ∧
+    (∀ x ∈ items, some x.name ∈ cableNames (items.foldl netStep [])) ∧
+    (∀ o ∈ cableNames (items.foldl netStep []), ∃ x ∈ items, o = some x.name) := by
+  have := namesInv_foldl items hwf [] items [] rfl
+    ⟨(by simp [cableNames]), (fun x hx => by cases hx), (fun o ho => by simp [cableNames] at ho)⟩
+  exact ⟨this.nodup, by simpa using this.complete, by simpa using this.sound⟩
+
 end Spydr.Edif
